@@ -39,8 +39,12 @@ package ecdsa
 //@   props C19 C11
 //@   requires p.logger != nil
 //@   ghost-var compared bool
+//@   on-call signing.NewLocalParty(m, prm, key, out, done, full):
+//@     assert [digest-converted] m != nil && bigval(m) == beint(msgHash)
+//@     assert [whole-digest]     len(full) == 1 && full[0] == len(msgHash)
 //@   on-call bytes.Equal(a, b):
-//@     assert [signed-message] same(a, sigOut.M)
+//@     assert [signed-message]  same(a, sigOut.M)
+//@     assert [against-request] same(b, msgHash)
 //@     ghost compared = true
 //@   at return:
 //@     assert [requested-digest] result.1 == nil ==> compared
